@@ -22,6 +22,8 @@ NegReverses == \A a, b \in D : Less(a, b) <=> Less(Neg(b), Neg(a))
 \* Inc is defined on |k| < K here (the implementation stores the distance in an int8)
 IncMonotone == \A a, b \in Dom(K - 1) : Less(a, b) <=> Less(Inc(a), Inc(b))
 IncKeepsClassOrder == \A a \in Dom(K - 1) : a.t = "H" => Inc(a) = a
+DecInverts == \A a \in Dom(K - 1) : Dec(Inc(a)) = a
+DecMonotone == \A a, b \in D : Less(a, b) => ~Less(Dec(b), Dec(a))
 MaxMin == \A a, b \in D : /\ Max(a, b) \in {a, b} /\ Min(a, b) \in {a, b}
                           /\ ~Less(Max(a, b), a) /\ ~Less(Max(a, b), b)
                           /\ ~Less(a, Min(a, b)) /\ ~Less(b, Min(a, b))
@@ -35,6 +37,8 @@ ASSUME NegInvolution
 ASSUME NegReverses
 ASSUME IncMonotone
 ASSUME IncKeepsClassOrder
+ASSUME DecInverts
+ASSUME DecMonotone
 ASSUME MaxMin
 ASSUME Chain
 
